@@ -253,7 +253,7 @@ class Rig:
     def drain(self):
         for _ in range(200):
             self.m.tick(0)
-            if not len(self.m) and not _attr(self.m, '_tasks', None):
+            if not len(self.m) and not common.get_tasks(self.m, None):
                 return
         raise RuntimeError('rig: event queue does not drain')
 
